@@ -441,6 +441,60 @@ class _Unroller(ast.NodeTransformer):
         return node
 
 
+class _NestedExprInliner(ast.NodeTransformer):
+    """N1d: a nested function whose body is one `return <expression>` (e.g. a local predicate `def linked(d01, d10): return ...`) is
+    expanded at its calls inside the enclosing function: parameters replaced by the (name / constant) arguments, free variables stay as
+    they are -- valid because the enclosing function does not rebind them after the definition (checked), so they denote the same
+    objects at the call as inside the nested function.  The nested def is dropped when no reference to it remains."""
+
+    def __init__(self):
+        self.count = 0
+
+    def visit_FunctionDef(self, node):
+        self.generic_visit(node)
+        nested = {}
+        for st in node.body:
+            if isinstance(st, ast.FunctionDef) and not st.decorator_list:
+                body = _strip_doc(st.body)
+                a = st.args
+                if len(body) == 1 and isinstance(body[0], ast.Return) and body[0].value is not None and not (a.vararg or a.kwarg or a.kwonlyargs or a.posonlyargs or a.defaults):
+                    params = [p.arg for p in a.args]
+                    free = {x.id for x in ast.walk(body[0].value) if isinstance(x, ast.Name)} - set(params)
+                    rebound_later = any(isinstance(x, ast.Name) and isinstance(x.ctx, (ast.Store, ast.Del)) and x.id in free and getattr(x, "lineno", 0) > st.lineno
+                                        for x in ast.walk(node) if not any(x is y for y in ast.walk(st)))
+                    inner_binds = any(isinstance(x, (ast.NamedExpr, ast.Lambda, ast.Yield, ast.Await)) for x in ast.walk(body[0].value))
+                    if not rebound_later and not inner_binds:
+                        nested[st.name] = (params, body[0].value)
+        if not nested:
+            return node
+        outer = self
+
+        class R(ast.NodeTransformer):
+            def visit_FunctionDef(self, n):
+                return n if n.name in nested else self.generic_visit(n)
+
+            def visit_Call(self, c):
+                self.generic_visit(c)
+                if isinstance(c.func, ast.Name) and c.func.id in nested and not c.keywords and all(isinstance(a_, (ast.Name, ast.Constant)) for a_ in c.args):
+                    params, expr = nested[c.func.id]
+                    if len(params) == len(c.args):
+                        sub = dict(zip(params, c.args))
+                        comp_vars = {n.id for g in ast.walk(expr) if isinstance(g, ast.comprehension) for n in ast.walk(g.target) if isinstance(n, ast.Name)}
+                        if comp_vars & ({x.id for a_ in c.args for x in ast.walk(a_) if isinstance(x, ast.Name)} | set(params)):
+                            return c
+
+                        class S(ast.NodeTransformer):
+                            def visit_Name(self, n):
+                                return copy.deepcopy(sub[n.id]) if n.id in sub and isinstance(n.ctx, ast.Load) else n
+                        outer.count += 1
+                        return ast.copy_location(S().visit(copy.deepcopy(expr)), c)
+                return c
+        node.body = [R().visit(st) for st in node.body]
+        refs = {x.id for x in ast.walk(node) if isinstance(x, ast.Name) and isinstance(x.ctx, ast.Load)}
+        node.body = [st for st in node.body if not (isinstance(st, ast.FunctionDef) and st.name in nested and st.name not in refs)] or [ast.Pass()]
+        return node
+
+
 class _CallableTemps(ast.NodeTransformer):
     """N1c: `g = methodcaller('m', *a)` ... `g(x)`  ->  `x.m(*a)`;   `g = partial(f, *a, **k)` ... `g(*b)`  ->  `f(*a, *b, **k)`
     for locals bound exactly once (the temporaries stay, unused).  Pure rewriting of call syntax: operator.methodcaller and
@@ -536,6 +590,11 @@ def normalise_module(tree: ast.Module, exported=(), unroll=True):
     ct = _CallableTemps()
     ct.visit(tree)
     info["call_sites"] += ct.count
+    ne = _NestedExprInliner()
+    ne.visit(tree)
+    info["call_sites"] += ne.count
+    if ne.count:
+        info["helpers_inlined"] = sorted(set(info["helpers_inlined"]) | {"<nested single-expression functions>"})
     # helpers whose every call was inlined are dead code on the normal form: dropped, so that no rule judges the helper out of context
     refs = {n.id for n in ast.walk(tree) if isinstance(n, ast.Name) and isinstance(n.ctx, ast.Load)} | \
            {n.attr for n in ast.walk(tree) if isinstance(n, ast.Attribute)}
